@@ -2,7 +2,7 @@ PROP = dict(
     id="C07",
     level="proof",
     functions=["_BatchJobs.__init__", "_BatchJobs.try_append", "_BatchJobs.are_blocking_jobs_present", "_BatchJobs.is_job_blocked",
-               "HpcSubmitter._make_batch"],
+               "HpcSubmitter._make_batch", "HpcManagerV._get_interface", "HpcManagerV.submit", "HpcSubmitterT._create_run_script", "HpcSubmitter._make_async_submitter", "HpcSubmitter._get_available_jobs", "AsyncHpcSubmitter.run"],
     native=["_BatchJobs.__init__", "_BatchJobs.try_append", "_BatchJobs.is_job_blocked", "HpcSubmitter._make_batch"],
     records=["_BatchJobs", "Job", "SubmitterParams", "SubmissionGroup", "HpcSubmitter"],
     min_obligations=1000,
